@@ -310,3 +310,8 @@ def run(repo: Repo, rep: Report, tier: str) -> None:
         g_ = enclosing(r, (ast.If,))
         okr = g_ is not None and norm(g_.test) in ("exc_type is None", "exc_val is None", "not exc_type") and any(x is r for x in g_.body)
         rep.check(okr, "attempt", "service_class.attempt.__exit__", r, f"__exit__ lets an exception through (falsy return under `{norm(g_.test) if g_ is not None else 'no condition'}`): a handler raising it (SystemExit, KeyboardInterrupt, GeneratorExit) leaves the request without any final response", mod=sc, node=r)
+    # ---- absent is None, not falsy ---------------------------------------------------------
+    from ..lints import zero_legal_truthiness
+    rep.rule("none-not-falsy", "Message IDs and Status are tested with `is None`: Message ID 0 and Status 0x0000 are legal")
+    zero_legal_truthiness(repo, rep, "none-not-falsy", {"MessageID", "MessageIDBeingRespondedTo", "Status"})
+
